@@ -55,6 +55,9 @@ var fnWhitelist = map[string][]string{
 		"StringList.Contains", "StringList.Add", "StringList.Remove",
 		"TagList.Contains", "TagList.Add", "TagList.Remove",
 		"Header.Valid",
+		"OperatorClaims.Claims", "AccountClaims.Claims", "UserClaims.Claims", "ActivationClaims.Claims", "ClusterClaims.Claims", "ServerClaims.Claims", "GenericClaims.Claims",
+		"OperatorClaims.ExpectedPrefixes", "AccountClaims.ExpectedPrefixes", "UserClaims.ExpectedPrefixes", "ActivationClaims.ExpectedPrefixes", "ClusterClaims.ExpectedPrefixes", "ServerClaims.ExpectedPrefixes", "GenericClaims.ExpectedPrefixes",
+		"Decode",
 	},
 }
 
@@ -238,7 +241,7 @@ var nilableElems = map[string]bool{"Export": true, "Import": true}
 
 // opaqueFns: package functions that translated code may call but that stay outside the translation (their behaviour
 // is a parameter of the translated caller: a field of the generated structure `Opq`)
-var opaqueFns = map[string]bool{"ClaimsData.encode": true, "parseHeaders": true, "decodeString": true, "loadOperator": true, "loadAccount": true, "loadUser": true, "loadActivation": true, "loadAuthorizationRequest": true, "loadAuthorizationResponse": true, "DecodeActivationClaims": true, "RenamingSubject.ToSubject": true}
+var opaqueFns = map[string]bool{"parseClaims": true, "ClaimsData.encode": true, "parseHeaders": true, "decodeString": true, "loadOperator": true, "loadAccount": true, "loadUser": true, "loadActivation": true, "loadAuthorizationRequest": true, "loadAuthorizationResponse": true, "DecodeActivationClaims": true, "RenamingSubject.ToSubject": true}
 
 // foreignOpaque: functions of other packages that translated code may call; each becomes a field of `Opq`
 // (name, Lean type of the field, and how a two-value result is read)
@@ -249,7 +252,9 @@ var foreignOpaque = map[string]string{
 	"nkeys.IsValidPublicOperatorKey": "Str → Bool",
 	"nkeys.IsValidPublicServerKey":   "Str → Bool",
 	"nkeys.IsValidPublicCurveKey":    "Str → Bool",
-	"Claims.verify":                  "I_Claims → Str → (List Int) → Bool", // the interface method `verify(payload, sig)`: the signature check under the claim's own issuer
+	"nkeys.IsValidPublicClusterKey":  "Str → Bool",
+	"Claims.verify":                  "I_Claims → Str → (List Int) → Bool",
+	"Claims.Verify":                  "I_Claims → Str → (List Int) → Bool", // v1compat spells it with a capital // the interface method `verify(payload, sig)`: the signature check under the claim's own issuer
 	"url.Parse":                      "Str → Option T_url_URL",             // none = the error result is non-nil (and the *URL is nil)
 	"time.Parse":                     "Str → Str → Bool",                   // true = the error result is non-nil
 	"time.LoadLocation":              "Str → Bool",                         // true = the error result is non-nil
@@ -570,6 +575,9 @@ func (g *fnGen) opaqueInfoOf(fn *types.Func) *fnInfo {
 		p := sig.Params().At(i)
 		fi.params = append(fi.params, p)
 		_, isPtr := ptrToStruct(p.Type())
+		if _, isI := p.Type().Underlying().(*types.Interface); isI && fn.Name() == "parseClaims" {
+			isPtr = true // parseClaims(s, target Claims) fills the claims the interface value points to
+		}
 		fi.mutated = append(fi.mutated, isPtr)
 	}
 	for i := 0; i < sig.Results().Len(); i++ {
